@@ -766,13 +766,18 @@ Section Sound.
           - constructor; assumption.
           - left. reflexivity. }
         match goal with |- Post _ _ _ _ _ (if ?c then _ else _) => destruct c end.
-        + pose proof (run_chunk tpl ae depth bchunk s1 (SinkBuf []) HT Hbc Hbg) as P.
-          destruct (run W wr wd f tpl ae depth bchunk 0 s1 (SinkBuf [])) as [s2 o2|e|]; [|exact P|exact I].
+        + (* the captured block: capture stack detached for the run, restored afterwards *)
+          assert (Hbg' : blocks_good (upd_caps s1 [])) by exact Hbg.
+          pose proof (run_chunk tpl ae depth bchunk (upd_caps s1 []) (SinkBuf []) HT Hbc Hbg') as P.
+          destruct (run W wr wd f tpl ae depth bchunk 0 (upd_caps s1 []) (SinkBuf [])) as [s2 o2|e|]; [|exact P|exact I].
           destruct P as (PI & PB & PC & PK). destruct o2 as [w2|text]; [destruct PK|].
-          cbn [s1 blocks upd_blocks] in PB.
+          cbn [s1 blocks upd_blocks upd_caps] in PB.
           eapply post_trans; [eapply GO; [left; reflexivity| |]| | |apply same_kind_refl].
-          * refine (Inv_sim _ _ _ _ s2 _ eq_refl eq_refl eq_refl _).
-            exact (Inv_after bv bl bc (mkA st lo ca) s s2 (conj HS (conj HL HC)) PI).
+          * destruct PI as (PS & PL & _). cbn [s1 stack loops upd_caps upd_blocks] in PS, PL.
+            split; [|split]; st_cbn.
+            -- rewrite (SI_nil_inv _ _ PS). exact HS.
+            -- exact (LI_sim _ _ _ _ HL (LI_nil_inv _ _ PL)).
+            -- exact HC.
           * apply (blocks_good_eq s); [st_cbn; rewrite PB; reflexivity|reflexivity|exact HB].
           * st_cbn. rewrite PB. reflexivity.
           * reflexivity.
